@@ -42,7 +42,11 @@ def groups(F):
         if F[k]:
             g.append([fl])
     if F["r"] != "absent":
-        g.append(["-r", "::" if F["r"] == "other" else "/"])
+        # representative values: a 2-byte text, "/", or — for a third of the sets — exactly the effective delimiter
+        one = "/"
+        if F.get("r_eq_d"):
+            one = "-" if F["d"] == "one" else ("\t" if F["d"] == "absent" else "/")
+        g.append(["-r", ("--" if (F.get("r_eq_d") and F["d"] == "other") else "::") if F["r"] == "other" else one])
     if F["t"]:
         g.append(["-t", "b"])
     if F["fb"]:
@@ -79,7 +83,7 @@ def space(rng):
                             if mode == "dflt":
                                 fmt, fwd = False, True
                             yield dict(mode=mode, bk=bk, d=d, r=r, M=M, e=e, g=g, p=p, s=s, z=z, m=m, j=j, nj=nj, json=json, t=t, fb=fb,
-                                       extra=extra, fmt=fmt, fwd=fwd)
+                                       extra=extra, fmt=fmt, fwd=fwd, r_eq_d=rng.random() < 0.34)
 
 
 def flags_case(F):
@@ -110,6 +114,7 @@ def run(chk):
                      M=rng.choice(["absent", "absent", "absent", "zero", "pos", "pos"]), fmt=fmt, fwd=fwd)
             for k in ("e", "g", "p", "s", "z", "m", "j", "nj", "json", "t", "fb", "extra"):
                 F[k] = rng.random() < (0.08 if k == "extra" else 0.2)
+            F["r_eq_d"] = rng.random() < 0.34
             sets.append(F)
     chk.rule = ("option sets over {-f|-c|-b|-l|none} × -d {absent, 1-byte, 2-byte} × -r {absent, 1-byte, 2-byte} × -M {absent, 0, 1} × "
                 "subsets of {-e,-g,-p,-s,-z,-m,-j,--no-join,--json,-t,--fallback-oob, an unknown argument} × bounds shapes {ascending, "
